@@ -52,19 +52,25 @@ impl InstructionGenerator {
             upper_bound,
             counter_var_name.expression_type(),
         );
-        // A to C (upper bound to C)
-        self.push(Instruction::CopyAToC, pos);
         // load the step expression
         match step {
             Some(s) => {
                 let step_pos = s.pos();
-                // load 0 to B
-                self.push_load(Variant::VInteger(0), pos);
-                self.push(Instruction::CopyAToB, pos);
+                // keep the upper bound on the value stack while the step is evaluated
+                // (the step expression may call a function that uses the registers)
+                self.push(Instruction::PushAToValueStack, pos);
                 // load step to A
                 self.generate_expression_instructions(s);
                 // A to D (step is in D)
                 self.push(Instruction::CopyAToD, pos);
+                // A to C (upper bound to C)
+                self.push(Instruction::PopValueStackIntoA, pos);
+                self.push(Instruction::CopyAToC, pos);
+                // load 0 to B
+                self.push_load(Variant::VInteger(0), pos);
+                self.push(Instruction::CopyAToB, pos);
+                // step back to A
+                self.push(Instruction::CopyDToA, pos);
                 // is step < 0 ?
                 self.push(Instruction::Less, pos);
                 self.jump_if_false("test-positive-or-zero", pos);
@@ -99,6 +105,8 @@ impl InstructionGenerator {
                 self.label("out-of-for", pos);
             }
             None => {
+                // A to C (upper bound to C)
+                self.push(Instruction::CopyAToC, pos);
                 self.push_load(Variant::VInteger(1), pos);
                 // A to D (step is in D)
                 self.push(Instruction::CopyAToD, pos);
